@@ -430,6 +430,46 @@ func oracle(lg *runLog) oracleOut {
 			}
 		}
 	}
+	// no honest keyper accuses an honest dealer whose commitment and whose evaluation for the
+	// accuser were included in dealing-phase blocks (independent of the model comparison)
+	landedFor := func(j int, eon uint64, start int64, rcv common.Address) bool {
+		c, v := false, false
+		for _, s := range rig.SentBy(rig.Parties[j].Name) {
+			if s.Msg == nil || s.Rec.Check != 0 || s.Rec.Deliver != 0 || rig.PhaseAt(s.Rec.Height, start) != puredkg.Dealing {
+				continue
+			}
+			if pc := s.Msg.GetPolyCommitment(); pc != nil && pc.Eon == eon {
+				c = true
+			}
+			if pe := s.Msg.GetPolyEval(); pe != nil && pe.Eon == eon {
+				for _, r := range pe.Receivers {
+					if bytes.Equal(r, rcv.Bytes()) {
+						v = true
+					}
+				}
+			}
+		}
+		return c && v
+	}
+	for _, i := range honest {
+		for _, s := range rig.SentBy(rig.Parties[i].Name) {
+			if s.Msg == nil || s.Rec.Check != 0 || s.Msg.GetAccusation() == nil {
+				continue
+			}
+			ac := s.Msg.GetAccusation()
+			for _, ei := range lg.eons {
+				if ei.Eon != ac.Eon {
+					continue
+				}
+				for _, a := range ac.Accused {
+					j := rig.IndexOf(common.BytesToAddress(a))
+					if j >= 0 && plan.byz(j) == nil && landedFor(j, ac.Eon, ei.Start, rig.Parties[i].Addr) {
+						add("C07:honest-dealer-accused", fmt.Sprintf("eon %d: honest party %d accuses honest party %d although its commitment and its evaluation for party %d were included in the dealing phase", ac.Eon, i, j, i), fmt.Sprintf("accusation in block %d", s.Rec.Height), "no accusation")
+					}
+				}
+			}
+		}
+	}
 	for _, ei := range lg.eons {
 		if ei.CfgIdx != 1 {
 			continue
